@@ -154,6 +154,7 @@ class TaskCoordinator:
         self.top_format = top_format
         self.top_sort = top_sort
         self.top_n = top_n
+        self.interrupted = False
 
     def get_pbar(self, *, task_type: Type[Task], task_count: int) -> base_tqdm:
         pbar_func = tqdm_notebook if self.lab.notebook else tqdm
@@ -171,7 +172,9 @@ class TaskCoordinator:
         if isinstance(ex.__cause__, concurrent.futures.process._RemoteTraceback):
             ex = ex.__cause__
 
-        if self.lab.continue_on_failure:
+        if self.lab.continue_on_failure or self.interrupted:
+            # (After an interrupt, the failure of a task that was still
+            # running must not replace the KeyboardInterrupt.)
             logger.error(f"{message} Skipping task. Failure cause: {ex}")
         else:
             logger.error(message)
@@ -259,6 +262,7 @@ class TaskCoordinator:
                         process_completed_tasks()
                 except KeyboardInterrupt as first_keyboard_interrupt:
                     try:
+                        self.interrupted = True
                         logger.info(('Interrupted. Finishing running tasks. '
                                      'Press Ctrl-C again to terminate running tasks immediately.'))
                         runner.cancel()
